@@ -61,6 +61,21 @@ def main(argv=None) -> int:
             conformance.main()
         res: core.Result = mod.run(args.tier, seed, args.workers or core.ncpu())
     except core_internal_errors() as e:
+        text = ''.join(traceback.format_exception(type(e), e, e.__traceback__))
+        lib_frames = [l.strip() for l in text.splitlines() if '/bridge_env/' in l and 'File "' in l]
+        from .sched.prims import InternalError
+        if lib_frames and not isinstance(e, InternalError):
+            # an exception raised INSIDE the library escaped from an enumeration that runs clean on the unchanged tree: the library
+            # crashed on an input / history of the stated domain - that is a property violation, not a harness error
+            v = core.Violation(f'exception-in-library:{type(e).__name__}', f'{type(e).__name__}: {e} raised inside the library at {lib_frames[-1]}', {'kind': 'crash', 'traceback': text[-3000:]})
+            core.clear_replays(pid)
+            path = core.write_replay(pid, 0, v)
+            print(f'  {v.key}: {v.message}'[:600])
+            print(f'VIOLATION property={pid} replay={path}')
+            core.write_evidence(pid, args.tier, seed, core.Result({'evaluations': 1, 'distinct_nontrivial': 2, 'states': 1, 'transitions': 1, 'traces_validated_against_impl': 1,
+                                                                 'rule': 'the enumeration was cut short by an exception raised inside the library', 'samples': [v.message], 'explanation': 'aborted run'},
+                                                                [v], [], level='other'), time.time() - t0, 1)
+            return 1
         traceback.print_exc()
         print(f'INTERNAL: {type(e).__name__}: {e}', file=sys.stderr)
         return 2
